@@ -36,7 +36,7 @@ def run(chk, replay):
     ]
     if chk.tier == "quick":
         plans = [((2, 3), 2, 3, None), ((3, 2), 2, 3, None), ((3, 3), 2, 5, None), ((3, 3), 3, 5, None),
-                 ((2, 2), 4, 2, None)]
+                 ((2, 2), 4, 2, None), ((3, 3), 4, 5, 4000)]
         frac = {2: 1.0, 3: 0.5, 4: 1.0}
     else:
         plans = [((2, 3), 2, 3, None), ((3, 2), 2, 3, None), ((4, 4), 2, 8, None), ((3, 3), 3, 5, None),
